@@ -18,6 +18,11 @@ using tag_t = gil::targa_tag;
 using pix_t = PIX;
 using img_t = gil::image<pix_t, false>;
 using pimg_t = gil::image<pix_t, true>;
+#if ORG == 6
+using back_t = gil::gray1_image_t;   // bit-aligned 1-bit gray (PNM P4): rows are packed 8 pixels to a byte
+#else
+using back_t = img_t;
+#endif
 
 template <class View> static void round_trip(View const& v, int W, int H) {
 #if DEV == 1
@@ -32,7 +37,7 @@ template <class View> static void round_trip(View const& v, int W, int H) {
     gil::write_view(nm, v, tag_t());
 #endif
     vp_assert(!vp_file_is_open(), "rt.stream_closed_after_write");
-    img_t back;
+    back_t back;
 #if DEV == 1
     FILE* fr = (FILE*)vp_fopen_read();
     gil::read_image(fr, back, tag_t());
@@ -61,6 +66,10 @@ extern "C" void h_rt(void) {
 #elif ORG == 4
         img_t a(2 * W, H); vp_fill(&gil::view(a)(0, 0), (unsigned long)(2 * W * H) * sizeof(pix_t));
         round_trip(gil::subsampled_view(gil::view(a), 2, 1), W, H);
+#elif ORG == 6
+        gil::gray1_image_t a(W, H);
+        { auto v = gil::view(a); for (int y = 0; y < H; ++y) for (int x = 0; x < W; ++x) { unsigned char b = vp_nondet_u8(); v(x, y) = gil::gray1_image_t::value_type((unsigned char)(b & 1)); } }
+        round_trip(gil::view(a), W, H);
 #else
         img_t a(W, H); vp_fill(&gil::view(a)(0, 0), (unsigned long)(W * H) * sizeof(pix_t));
         round_trip(gil::flipped_up_down_view(gil::view(a)), W, H);
